@@ -207,7 +207,7 @@ def run_impl(exe, path, chunk=None, np_=1, hints=(), maxdata=None, indep=False, 
             r['ranks_agree'] = l.split()[3] == '1'
         elif l.startswith('rusage '):
             t = l.split(); r['rss_kb'] = int(t[2]); r['wall_ms'] = int(t[4]); r['cpu_ms'] = int(t[6]) if len(t) > 6 else None
-        elif l and re.match(r'^(open|format|inq|sizes|dim|att|var|data|idata|close|vard_zero) ', l):
+        elif l and re.match(r'^(open|format|inq|sizes|dim|att|var|data|idata|rec|close|vard_zero) ', l):
             r['lines'].append(l)
     return r
 
@@ -285,7 +285,7 @@ def _parse_batch(out):
             cur = None
         elif l.startswith('ranks '):
             agree = l.split()[3] == '1'
-        elif re.match(r'^(open|format|inq|sizes|dim|att|var|data|idata|close|vard_zero) ', l):
+        elif re.match(r'^(open|format|inq|sizes|dim|att|var|data|idata|rec|close|vard_zero) ', l):
             lines.append(l)
     return done, cur, '\n'.join(buf)
 
